@@ -23,9 +23,15 @@ type layout struct {
 	EOL    string `json:"eol"`
 	Final  bool   `json:"final_newline"`
 	Remote bool   `json:"over_http"`
+	// Cut > 0 (http only): the server announces the whole file and hangs up after Cut-1 complete lines: the crawl must
+	// either refuse to start or have every regex of the file in force - never start with a part of the list
+	Cut int `json:"download_breaks_after_lines_plus_one,omitempty"`
 }
 
 func (l layout) name() string {
+	if l.Cut > 0 {
+		return fmt.Sprintf("n=%d split=%d eol=%q final-newline=%v http=%v download breaks after %d lines", l.N, l.Split, l.EOL, l.Final, l.Remote, l.Cut-1)
+	}
 	return fmt.Sprintf("n=%d split=%d eol=%q final-newline=%v http=%v", l.N, l.Split, l.EOL, l.Final, l.Remote)
 }
 
@@ -36,10 +42,16 @@ func layouts() []layout {
 			for _, eol := range []string{"\n", "\r\n"} {
 				for _, final := range []bool{true, false} {
 					for _, remote := range []bool{false, true} {
-						out = append(out, layout{n, split, eol, final, remote})
+						out = append(out, layout{N: n, Split: split, EOL: eol, Final: final, Remote: remote})
 					}
 				}
 			}
+		}
+	}
+	// a download that breaks: one file over http, the connection closed after 0..n-1 complete lines
+	for n := 1; n <= 3; n++ {
+		for cut := 1; cut <= n; cut++ {
+			out = append(out, layout{N: n, EOL: "\n", Final: true, Remote: true, Cut: cut})
 		}
 	}
 	return out
@@ -50,6 +62,7 @@ func layoutURL(i int) string   { return fmt.Sprintf("http://in.example/zone%d/x.
 
 type layoutOut struct {
 	Layouts, Cases int
+	Refused        int // layouts with a broken download for which the configuration was refused
 	Failures       []*failure
 }
 
@@ -76,7 +89,9 @@ func (l layout) materialise(dir string, li int, addr string) (Filter, []string) 
 		if err := os.WriteFile(filepath.Join(dir, name), []byte(body), 0o644); err != nil {
 			hkit.EngineError("%v", err)
 		}
-		if l.Remote {
+		if l.Remote && l.Cut > 0 {
+			paths = append(paths, fmt.Sprintf("http://%s/cut/%d/%s", addr, l.Cut-1, name))
+		} else if l.Remote {
 			paths = append(paths, "http://"+addr+"/"+name)
 		} else {
 			paths = append(paths, filepath.Join(dir, name))
@@ -101,7 +116,28 @@ func layoutGrid(only *layout) (lo layoutOut) {
 	if err != nil {
 		hkit.EngineError("%v", err)
 	}
-	srv := &http.Server{Handler: http.FileServer(http.Dir(dir))}
+	files := http.FileServer(http.Dir(dir))
+	srv := &http.Server{Handler: http.HandlerFunc(func(w http.ResponseWriter, r *http.Request) {
+		var keep int
+		var name string
+		if n, _ := fmt.Sscanf(r.URL.Path, "/cut/%d/%s", &keep, &name); n != 2 {
+			files.ServeHTTP(w, r)
+			return
+		}
+		b, err := os.ReadFile(filepath.Join(dir, name))
+		if err != nil {
+			http.NotFound(w, r)
+			return
+		}
+		part := strings.Join(strings.SplitAfter(string(b), "\n")[:keep], "")
+		conn, buf, err := w.(http.Hijacker).Hijack()
+		if err != nil {
+			return
+		}
+		fmt.Fprintf(buf, "HTTP/1.1 200 OK\r\nContent-Type: text/plain\r\nContent-Length: %d\r\n\r\n%s", len(b), part)
+		buf.Flush()
+		conn.Close()
+	})}
 	go srv.Serve(ln)
 	defer srv.Close()
 	for li, l := range layouts() {
@@ -109,8 +145,16 @@ func layoutGrid(only *layout) (lo layoutOut) {
 			continue
 		}
 		f, paths := l.materialise(dir, li, ln.Addr().String())
+		if l.Cut > 0 {
+			refuseOK = true
+		}
 		res := setupFiles(f, paths)
+		refuseOK = false
 		lo.Layouts++
+		if res == nil && l.Cut > 0 {
+			lo.Refused++ // the crawl refuses to start with a partly downloaded list: fine
+			continue
+		}
 		ctl := runCase(&Case{Pos: Position{"seed", "", 0}, Text: ctlURL, Filter: f}, res, false)
 		if len(ctl.Sent) != 1 || len(ctl.Bad) > 0 {
 			cleanup()
